@@ -456,3 +456,39 @@ Proof.
   - repeat constructor.
   - repeat constructor.
 Qed.
+
+(** ** undersized inputs (repaired code, hooks/fix_c12_ttest_zero_dof.diff) *)
+From Perf Require Import Model.TTestSpec Model.Quadrature Proofs.Quadrature.
+
+(** Welch's variance estimate s1^2/n1 + s2^2/n2 vanishes exactly when both sample variances do
+    (the declarative zero-variance condition of Model/TTestSpec.v) *)
+Theorem C12_zero_var_welch_iff : forall v1 n1 v2 n2 : Q,
+  (0 <= v1 -> 0 <= v2 -> 0 < n1 -> 0 < n2 ->
+   (zero_var_welch v1 v2 = true <-> v1 / n1 + v2 / n2 == 0))%Q.
+Proof. exact zero_var_welch_iff. Qed.
+Print Assumptions C12_zero_var_welch_iff.
+
+(** the auditor's witnesses: a summary of one observation (mean 3, variance 5) has no degrees of
+    freedom - OneSampleTTest and TwoSampleTTest (1 + 1 observations) report ErrSampleSize, and the
+    declarative specification demands an error; a pooled test whose only multi-observation group
+    has variance 0 reports ErrZeroVariance. (Unrepaired code: P = NaN / T = +Inf with a nil error.) *)
+Example C12_example_zero_dof_is_size_error :
+  one_sample_decision (mkTS (b64_of_Z 1) (b64_of_Z 3) (b64_of_Z 5)) = Some ErrSampleSize /\
+  pooled_decision (mkTS (b64_of_Z 1) (b64_of_Z 3) (b64_of_Z 5)) (mkTS (b64_of_Z 1) (b64_of_Z 4) (b64_of_Z 2))
+    = Some ErrSampleSize /\
+  pooled_decision (mkTS (b64_of_Z 1) (b64_of_Z 3) (b64_of_Z 5)) (mkTS (b64_of_Z 2) (b64_of_Z 4) (b64_of_Z 0))
+    = Some ErrZeroVariance /\
+  pooled_decision (mkTS (b64_of_Z 1) (b64_of_Z 3) (b64_of_Z 5)) (mkTS (b64_of_Z 2) (b64_of_Z 4) (b64_of_Z 2)) = None /\
+  expect_of (undersized_one 1) (zero_var_one 5) = ExpErrIn [1%Z] /\
+  expect_of (undersized_pooled 1 1) (zero_var_pooled 5 1 2 1) = ExpErrIn [1%Z; 2%Z] /\
+  expect_of (undersized_pooled 1 2) (zero_var_pooled 5 1 0 2) = ExpErrIn [2%Z] /\
+  expect_of (undersized_pooled 1 2) (zero_var_pooled 5 1 2 2) = ExpOk.
+Proof. vm_compute. repeat split. Qed.
+
+(** ** quadrature used to judge PDF against CDF: one Boole panel is exact on polynomials of degree <= 5 *)
+Theorem C12_boole_panel_exact_deg5 : forall c0 c1 c2 c3 c4 c5 a h : Q,
+  let p := poly5 c0 c1 c2 c3 c4 c5 in
+  (2 * h / 45 * boole_panel (p a) (p (a + h)) (p (a + 2 * h)) (p (a + 3 * h)) (p (a + 4 * h))
+   == poly5_int c0 c1 c2 c3 c4 c5 (a + 4 * h) - poly5_int c0 c1 c2 c3 c4 c5 a)%Q.
+Proof. exact boole_panel_exact_deg5. Qed.
+Print Assumptions C12_boole_panel_exact_deg5.
